@@ -1052,7 +1052,7 @@ void registerImportEngine()
     e.generate = generate;
     e.execute = execute;
     e.simplify = simplify;
-    e.timeoutS = 30;
+    e.timeoutS = 20;
     e.crashProperty = "C07";
     registerEngine(e);
 }
